@@ -23,6 +23,10 @@
 (* the attempt whose listener it reaches.                                  *)
 (*   wrongId  some other well-formed id      emptyId  empty / missing id   *)
 (*   staleId  id of an earlier Dial          otherId  id of the concurrent *)
+(*   badGreeting  the RIGHT id inside a malformed opening message (wrong    *)
+(*            command integer, command missing, an extra leading item, the  *)
+(*            ad before the command): "a malformed greeting" of the         *)
+(*            statement -- closed, never returned, whatever id it carries   *)
 (*   garbage  bytes that are no hello                 attempt to the other *)
 (*   close    connects and closes at once             broker               *)
 (*   stall    connects and sends nothing (the accept loop is stuck on it   *)
@@ -41,7 +45,7 @@ CONSTANTS
   Bug
 
 Brokers == 1..NB
-HelloKinds == {"legit", "wrongId", "emptyId", "staleId", "otherId", "garbage", "close", "stall"}
+HelloKinds == {"legit", "wrongId", "emptyId", "staleId", "otherId", "badGreeting", "garbage", "close", "stall"}
 WellFormed == {"legit", "wrongId", "emptyId", "staleId", "otherId"}   \* parse as a hello
 
 VARIABLES
@@ -146,7 +150,7 @@ EnvReply(b, r) ==
   /\ UNCHANGED <<conns, bconn, msgs, launched, ret, envDone, cancelled>>
 
 \* proxy mode: the broker writes a message on the stream the request came on
-ProxyMsgs == {"replyOk", "replyFail", "legit", "wrongId", "emptyId", "staleId", "garbage", "close"}
+ProxyMsgs == {"replyOk", "replyFail", "legit", "wrongId", "emptyId", "staleId", "badGreeting", "garbage", "close"}
 EnvSend(b, m) ==
   /\ Mode = "proxy" /\ ~envDone
   /\ att[b].st # "idle"
@@ -175,6 +179,9 @@ Matches(k) ==
   \/ "AcceptStaleId" \in Bug /\ k = "staleId"
   \/ "AcceptOtherAttemptId" \in Bug /\ k = "otherId"
   \/ "AcceptEmptyId" \in Bug /\ k = "emptyId"
+  \* known wrong design: the command integer of the greeting is not checked, so the id
+  \* alone decides
+  \/ "NoCommandCheck" \in Bug /\ k = "badGreeting"
 
 AcceptStep(b) ==
   /\ Mode = "standard"
@@ -230,6 +237,7 @@ ProxyRead(b) ==
                                           ![b].why = IF m = "replyFail" THEN "brokerFail" ELSE "protocol"]
                     /\ bconn' = [bconn EXCEPT ![b] = "closed"]
           ELSE IF m = "legit" \/ ("AcceptAnyHello" \in Bug /\ m \in WellFormed)
+                               \/ ("NoCommandCheck" \in Bug /\ m = "badGreeting")
                THEN /\ att' = [att EXCEPT ![b].st = "ok", ![b].nread = @ + 1, ![b].hello = m]
                     /\ UNCHANGED bconn
                ELSE /\ att' = [att EXCEPT ![b].st = "err", ![b].why = "protocol", ![b].nread = @ + 1]
